@@ -68,7 +68,7 @@ class Synth:
             return p and t.chance(1, p, "perturb " + label)
 
         src_val, dst_val = 1, 2
-        idw = c.idw
+        idw = getattr(self, "idw", None) or c.idw  # a scripted peer may use narrower ids than the configured entities
         if dev("src id"):
             src_val = 9
             notes.append("srcid")
